@@ -13,6 +13,7 @@ mod corpus;
 mod dbscen;
 mod exec;
 mod fmtchecks;
+mod opmatrix;
 mod execchecks;
 mod values;
 mod w2;
